@@ -5,7 +5,7 @@ import os, sys, json
 HERE = os.path.dirname(os.path.abspath(__file__)); sys.path.insert(0, HERE)
 import gen, rsitems, engine
 srcs = gen.load_sources(engine.REPO); st = {}
-srcs = gen.r9_desugar_iterators(srcs, st)
+srcs = gen.r9_desugar_iterators(gen.r16_outline_loop_bodies(srcs, st), st)
 out = {}
 for mod, src in srcs.items():
     mask = rsitems.scan_tokens(src)
